@@ -295,6 +295,101 @@ def o4_connect(chk, prog, props=('C18',)):
     chk.end(ob)
 
 
+STATE_NAMES = {0: 'idle', 1: 'waiting', 2: 'active'}
+
+
+def parse_rows(out):
+    """DataRow messages of a reply (concrete bytes) -> list of lists of column texts."""
+    rows, i = [], 0
+    while i + 5 <= len(out):
+        code, ln = out[i:i + 1], int.from_bytes(out[i + 1:i + 5], 'big')
+        body = out[i + 5:i + 1 + ln]
+        if code == b'D':
+            n, j, cols = int.from_bytes(body[:2], 'big'), 2, []
+            for _ in range(n):
+                l_ = int.from_bytes(body[j:j + 4], 'big')
+                j += 4
+                cols.append(body[j:j + l_].decode('latin1'))
+                j += l_
+            rows.append(cols)
+        i += 1 + ln
+    return rows
+
+
+@expectation('c18_show_clients')
+def c18_show_clients():
+    """Native: two clients registered in the real registry with given states and counters; SHOW CLIENTS through the real handle_admin."""
+    def f(res):
+        for r in res:
+            if 'error' in r or 'panic' in r:
+                return False, 'native: %r' % (r,)
+            if sorted(map(tuple, r.get('rows', []))) != sorted(map(tuple, r.get('want', []))):
+                return True, 'native: SHOW CLIENTS lists %r, the registry holds %r' % (r.get('rows'), r.get('want'))
+        return False, 'native: %r' % (res,)
+    return f
+
+
+def o5_show_clients(chk, prog):
+    """SHOW CLIENTS as the admin console renders it: every registered client once, with its own identity, its true state and its own counters."""
+    ob = chk.begin('O5-show-clients', 'admin::handle_admin (real coroutine) on SHOW CLIENTS over a registry of two clients with SYMBOLIC states and distinct identities and counters: the reply '
+                   'has exactly one DataRow per registered client, and in it the client\'s own id, pool, user, application, its state in words (idle / waiting / active as stored), and its '
+                   'own transaction / query / error totals in the columns that are named so', {'clients': 2})
+    ha = prog.funcs.get('handle_admin')
+    if ha is None:
+        raise Inconclusive('cannot locate admin::handle_admin')
+    ip = chk.interp(prog, 'O5-show-clients')
+    base = list(ip.overrides)
+    spec = [dict(cid=0x1a, pool='db0', user='u0', app='app0', tx=3, q=7, err=1), dict(cid=0x2b, pool='db1', user='u1', app='app1', tx=40, q=50, err=0)]
+
+    def harness(ip_):
+        ip_.overrides[:] = base
+        cmap = MapV('hashmap')
+        sts = []
+        for i, s in enumerate(spec):
+            st = ip_.fresh(64, 'cstate%d' % i)
+            ip_.assume(z3.ULE(st.v, 2))
+            sts.append(st)
+            cs = mk_client_stats(ip_, prog, s['cid'], s['pool'], s['user'], st)
+            setf(prog, cs, 'ClientStats', 'application_name', rstring(s['app']))
+            for fld, key in (('transaction_count', 'tx'), ('query_count', 'q'), ('error_count', 'err')):
+                setf(prog, cs, 'ClientStats', fld, Ptr(Cell(Agg([BV(64, s[key])], 'Atomic'), 'a')))
+            cmap.entries.append([BV(32, s['cid']), Cell(Ptr(Cell(cs, 'cs')), 'v')])
+
+        def cload(c, p, order):
+            v = deref(c.ip, p)
+            return EnumV(v.fields[0].fields[0], {}, 'ClientState')
+        ip_.overrides[:0] = [(re.compile(r'^(?:stats::|super::)?get_client_stats$'), lambda c: cmap),
+                             (re.compile(r'^(?:stats::\w+::)?AtomicClientState::load$'), cload),
+                             (re.compile(r'Instant::now$'), lambda c: Agg([BV(64, 5)], 'Instant')),
+                             (re.compile(r'Instant::duration_since$'), lambda c, a, b: Opaque('Duration', 'd')),
+                             (re.compile(r'Duration::as_secs$'), lambda c, d: BV(64, 5))]
+        q = b'SHOW CLIENTS'
+        body = [BV(8, x) for x in b'Q' + (len(q) + 5).to_bytes(4, 'big') + q + b'\0']
+        st_ = StreamV([], 'admin_client')
+        csm = Ptr(Cell(Agg([MapV('hashmap')], 'Lock'), 'csmap'))
+        try:
+            ip_.drive(ip_.call_function(ha, [Ptr(Cell(st_, 'stream')), Seq(body, 'bytesmut'), csm]))
+        except Panic as p:
+            raise Inconclusive('handle_admin panic: ' + p.msg)
+        ob.nontrivial += 1
+        if any(not b.concrete for b in st_.out):
+            raise Inconclusive('SHOW CLIENTS reply has symbolic bytes')
+        rows = parse_rows(bytes(b.v for b in st_.out))
+        states = []
+        for s_ in sts:
+            states.append(next(nm for k_, nm in STATE_NAMES.items() if decide(ip_, s_.v == k_)))
+        want = [['0x%08X' % s['cid'], s['pool'], s['user'], s['app'], states[i], str(s['tx']), str(s['q']), str(s['err'])] for i, s in enumerate(spec)]
+        got = [r_[:8] for r_ in rows]
+        if sorted(got) != sorted(want):
+            chk.report(ob, 'C18/O5/show-clients', 'SHOW CLIENTS lists %r; the registry holds %r (id, pool, user, application, state, transactions, queries, errors)' % (got, want), {'states': states},
+                       {'commands': [{'op': 'show_clients', 'clients': [dict(s, state=states[i]) for i, s in enumerate(spec)], 'want': want}], 'expect': ['c18_show_clients']})
+        if len(ob.samples) < 3:
+            ob.samples.append({'states': states, 'rows': got})
+    ip.explore(harness)
+    chk.absorb(ob, ip)
+    chk.end(ob)
+
+
 def o1_rollup(chk, prog, cpools, spools):
     nclients, nservers = len(cpools), len(spools)
     name = 'O1-rollup-clients%s-servers%s' % (''.join(map(str, cpools)), ''.join(map(str, spools)))
@@ -399,7 +494,8 @@ def main(chk):
         'pooler answers itself may or may not be counted). (O1) PoolStats::construct_pool_lookup over registries with symbolic states. '
         '(O3) a CancelRequest connection -- the real Client::cancel, handle in cancel mode, the drop -- makes no statistics call on the entry of the process id it names. '
         '(O4) bb8\'s connect hook, ServerPool::connect from MIR with Server::startup succeeding or failing: the connection is registered once and handed to bb8 in state idle; '
-        'a failed connect leaves nothing registered. NOT decided: consistency of the global registries under concurrent tasks, Server::drop\'s disconnect, '
+        'a failed connect leaves nothing registered. (O5) SHOW CLIENTS as the admin console renders it (admin::handle_admin from MIR over a registry of two clients with symbolic states): one row per '
+        'registered client with its own id, pool, user, application, its state in words and its own totals in the columns named so. NOT decided: the rendering of SHOW POOLS / SERVERS / LISTS, consistency of the global registries under concurrent tasks, Server::drop\'s disconnect, '
         'bytes/error totals, and that totals never decrease across pool reloads.')
     chk.assumptions += [
         'one session at a time; the registries themselves (RwLock<HashMap>) and their concurrent readers are not encoded',
@@ -414,6 +510,10 @@ def main(chk):
         o4_connect(chk, prog)
     except Inconclusive as e:
         chk.note_inconclusive('O4-connect: %s' % e)
+    try:
+        o5_show_clients(chk, prog)
+    except Inconclusive as e:
+        chk.note_inconclusive('O5-show-clients: %s' % e)
     try:
         o3_cancel_conn(chk, prog)
     except Inconclusive as e:
